@@ -206,6 +206,9 @@ func (session *HermesSession) Run(workingDir string, args []string, logID string
 		if driConfig.WeatherFileFormat == 1 {
 			yearEnde, _, _ := KalenderDate(g.ENDE)
 			years := yearEnde - g.ANJAHR + 1
+			if years < 1 {
+				return fmt.Errorf("start year %v is after the end of the simulation (%v)", g.ANJAHR, yearEnde)
+			}
 			bbbShared = NewWeatherDataShared(years, g.CO2KONZ)
 			err = ReadWeatherCSV(VWDATstr, g.ANJAHR, &g, &bbbShared, &herPath, &driConfig)
 			if err != nil {
@@ -223,6 +226,9 @@ func (session *HermesSession) Run(workingDir string, args []string, logID string
 		} else if driConfig.WeatherFileFormat == 2 {
 			yearEnde, _, _ := KalenderDate(g.ENDE)
 			years := yearEnde - g.ANJAHR + 1
+			if years < 1 {
+				return fmt.Errorf("start year %v is after the end of the simulation (%v)", g.ANJAHR, yearEnde)
+			}
 			bbbShared = NewWeatherDataShared(years, g.CO2KONZ)
 			err = ReadWeatherCZ(VWDATstr, g.ANJAHR, &g, &bbbShared, &herPath, &driConfig)
 			if err != nil {
